@@ -358,6 +358,12 @@ def write_evidence(h: Harness, mod, wall: float, nviol: int) -> None:
 
 
 def main(argv=None) -> int:
+    import faulthandler
+    import signal
+    try:  # `kill -USR1 <pid>` dumps the Python stacks of a run that seems stuck (debugging aid)
+        faulthandler.register(signal.SIGUSR1, all_threads=True)
+    except (AttributeError, ValueError):
+        pass
     ap = argparse.ArgumentParser()
     ap.add_argument("pid")
     ap.add_argument("--tier", default=os.environ.get("VERIF_TIER", "quick"))
